@@ -285,3 +285,33 @@ func Reach(off, adj []int, root int) []int {
 	visit(root)
 	return out
 }
+
+// goto found out of a search loop (translated to existsb)
+func AddUnique(xs []int, vs []int) []int {
+	for _, v := range vs {
+		for _, x := range xs {
+			if x == v {
+				goto found
+			}
+		}
+		xs = append(xs, v)
+	found:
+	}
+	return xs
+}
+
+func CountNew(xs, vs []int) (int, int) {
+	added, seen := 0, 0
+	for _, v := range vs {
+		for i, x := range xs {
+			if x == v && i >= 1 {
+				goto found
+			}
+		}
+		xs = append(xs, v)
+		added++
+	found:
+		seen++
+	}
+	return added*100 + seen, len(xs)
+}
